@@ -218,5 +218,12 @@ CHECKS['C18']['text'] += (' eval on integer parameters given as Python int, NumP
 CHECKS['C19']['text'] += (' Exponents 1, 3/2 and 2 (3/2 through a registered power atom with sqrt(2) exact); one isotropic '
                           'staircase of 8 + 8 bisections for sigma = 3/2, explored with w = v^2, 1/2 <= v <= 2.')
 
+# -- fourth round -----------------------------------------------------------------------------------------------
+CHECKS['C08']['text'] += (' (V) with u0 = 1 and the exponential integral replaced by the constant 4*pi every cell contributes '
+                          'area(cell) x |segment| (all segments up to the level bound on the three domains; ground rational facts).')
+CHECKS['C14']['text'] += (' On a straight segment traversed with symbolic speed kappa the curve-aware value is flat / kappa^2 '
+                          '(the denominator is the Euclidean distance of the curve points); invariances also for order 5.')
+CHECKS['C17']['text'] += (' The same list object as test and trial (and the defaulted trial list) must still give bilform(trial_j, test_i).')
+
 NA['C13'] = ('an eigenvalue bound on a matrix whose entries are quadratures of Ei/exp: no fragment of it is a '
              'statement an SMT solver can decide about the real code (DESIGN 3.20)')
